@@ -505,11 +505,11 @@ static char *mk_none(const char *pjson)
 }
 
 #define NTOK 11
-static char *CTOK[4][NTOK];
+static char *CTOK[5][NTOK];
 static const char *ctok_name[NTOK] = { "valid", "valid2", "expires-at-T0+100", "bad-signature", "wrong-alg", "no-dot", "bad-b64-header",
 				       "header-without-alg", "unsigned-none", "empty-string", "NULL" };
-enum { CC_NOKEY, CC_HS, CC_ES_ISS, CC_CB_KID, NCC };
-static const char *cc_name[NCC] = { "no-key", "HS256-key", "ES256-pubkey+iss", "callback-selects-key-by-kid" };
+enum { CC_NOKEY, CC_HS, CC_ES_ISS, CC_CB_KID, CC_CB_KID_LENIENT, NCC };
+static const char *cc_name[NCC] = { "no-key", "HS256-key", "ES256-pubkey+iss", "callback-selects-key-by-kid", "callback-selects-key-by-kid-or-leaves-config-untouched" };
 
 static int kid_cb(jwt_t *jwt, jwt_config_t *cfg)
 {
@@ -525,6 +525,21 @@ static int kid_cb(jwt_t *jwt, jwt_config_t *cfg)
 	return 0;
 }
 
+/* like kid_cb, but a token without a (known) kid leaves the config untouched and lets verification proceed */
+static int kid_lenient_cb(jwt_t *jwt, jwt_config_t *cfg)
+{
+	jwt_value_t v;
+	jwt_set_GET_STR(&v, "kid");
+	if (jwt_header_get(jwt, &v) != JWT_VALUE_ERR_NONE)
+		return 0;
+	jwk_item_t *it = jwks_find_bykid((jwk_set_t *)cfg->ctx, v.str_val);
+	if (!it)
+		return 0;
+	cfg->key = it;
+	cfg->alg = jwks_item_alg(it);
+	return 0;
+}
+
 static jwt_checker_t *cc_checker(int cc)
 {
 	jwt_checker_t *c = jwt_checker_new();
@@ -535,6 +550,7 @@ static jwt_checker_t *cc_checker(int cc)
 		jwt_checker_claim_set(c, JWT_CLAIM_ISS, "good");
 		break;
 	case CC_CB_KID: jwt_checker_setcb(c, kid_cb, ring); break;
+	case CC_CB_KID_LENIENT: jwt_checker_setcb(c, kid_lenient_cb, ring); break;
 	}
 	return c;
 }
@@ -578,6 +594,12 @@ static void c13_setup(void)
 	CTOK[CC_CB_KID][2] = mk_hs("{\"alg\":\"HS256\",\"kid\":\"h2\"}", PX, K32B, JWT_ALG_HS256, 0);
 	CTOK[CC_CB_KID][3] = mk_hs("{\"alg\":\"HS256\",\"kid\":\"h2\"}", P1, K32, JWT_ALG_HS256, 0);
 	CTOK[CC_CB_KID][4] = mk_hs("{\"alg\":\"HS256\",\"kid\":\"e1\"}", P1, K32, JWT_ALG_HS256, 0);
+	/* lenient callback: kid h1 valid, the same token without kid (fresh checker: no key), kid e1 valid, unknown kid, h2 with h1's key */
+	CTOK[CC_CB_KID_LENIENT][0] = mk_hs("{\"alg\":\"HS256\",\"kid\":\"h1\"}", P1, K32, JWT_ALG_HS256, 0);
+	CTOK[CC_CB_KID_LENIENT][1] = mk_hs("{\"alg\":\"HS256\"}", P1, K32, JWT_ALG_HS256, 0);
+	CTOK[CC_CB_KID_LENIENT][2] = mk_es("{\"alg\":\"ES256\",\"kid\":\"e1\"}", PX, 0);
+	CTOK[CC_CB_KID_LENIENT][3] = mk_hs("{\"alg\":\"HS256\",\"kid\":\"zz\"}", P1, K32, JWT_ALG_HS256, 0);
+	CTOK[CC_CB_KID_LENIENT][4] = mk_es("{\"alg\":\"ES256\"}", P2, 0);
 	for (int cc = 0; cc < NCC; cc++) {
 		CTOK[cc][5] = strdup("abcdef");
 		CTOK[cc][6] = strdup("!!!.e30.");
@@ -629,9 +651,9 @@ static void c13_checker_history(int cc, const int *ops, int n, const char *desc)
 
 /* ---- builder histories ---- */
 enum { BO_SETKEY_GOOD, BO_SETKEY_WEAK512, BO_SETKEY_NONE, BO_SETKEY_PUBLIC, BO_SETCB_FAIL, BO_SETCB_MUT, BO_SETCB_NULL, BO_GENERATE, BO_CLEAR, BO_CLOCK,
-       BO_CLAIM_SUB, BO_CLAIM_DEL, BO_SETKEY_ES, NBO };
+       BO_CLAIM_SUB, BO_CLAIM_DEL, BO_SETKEY_ES, BO_SETCB_SOMETIMES_KEY, NBO };
 static const char *bo_name[NBO] = { "setkey(HS256,oct32)", "setkey(HS512,oct32)", "setkey(none,NULL)", "setkey(ES256,public)!", "setcb(failing)", "setcb(mutating)",
-				    "setcb(NULL)", "generate", "error_clear", "clock+200", "claim_set(sub)", "claim_del(sub)", "setkey(EdDSA,ed25519)" };
+				    "setcb(NULL)", "generate", "error_clear", "clock+200", "claim_set(sub)", "claim_del(sub)", "setkey(EdDSA,ed25519)", "setcb(selects key only at even clock steps)" };
 static jwk_set_t *ed_set;
 
 static int fail_cb(jwt_t *jwt, jwt_config_t *cfg) { (void)jwt; (void)cfg; return 1; }
@@ -645,9 +667,20 @@ static int mut_cb(jwt_t *jwt, jwt_config_t *cfg)
 	return 0;
 }
 
+/* selects a key and algorithm only at even multiples of 200 s after T0; otherwise leaves the config untouched */
+static int sometimes_key_cb(jwt_t *jwt, jwt_config_t *cfg)
+{
+	(void)jwt;
+	if (((time(NULL) - T0) / 200) % 2 == 0) {
+		cfg->key = it_h1;
+		cfg->alg = JWT_ALG_HS256;
+	}
+	return 0;
+}
+
 typedef struct {
 	int key;  /* 0 none, 1 HS256 good, 2 HS512 weak, 3 EdDSA */
-	int cb;   /* 0 none, 1 failing, 2 mutating */
+	int cb;   /* 0 none, 1 failing, 2 mutating, 3 sometimes selects a key */
 	int sub;
 } bmodel_t;
 
@@ -658,6 +691,7 @@ static void bmodel_apply(jwt_builder_t *b, const bmodel_t *m)
 	else if (m->key == 3) jwt_builder_setkey(b, JWT_ALG_EDDSA, jwks_item_get(ed_set, 0));
 	if (m->cb == 1) jwt_builder_setcb(b, fail_cb, NULL);
 	else if (m->cb == 2) jwt_builder_setcb(b, mut_cb, NULL);
+	else if (m->cb == 3) jwt_builder_setcb(b, sometimes_key_cb, NULL);
 	if (m->sub) {
 		jwt_value_t v;
 		jwt_set_SET_STR(&v, "sub", "s");
@@ -686,6 +720,7 @@ static void c13_builder_history(const int *ops, int n, const char *desc)
 		case BO_SETCB_FAIL: if (!jwt_builder_setcb(b, fail_cb, NULL)) m.cb = 1; break;
 		case BO_SETCB_MUT: if (!jwt_builder_setcb(b, mut_cb, NULL)) m.cb = 2; break;
 		case BO_SETCB_NULL: if (!jwt_builder_setcb(b, NULL, NULL)) m.cb = 0; break;
+		case BO_SETCB_SOMETIMES_KEY: if (!jwt_builder_setcb(b, sometimes_key_cb, NULL)) m.cb = 3; break;
 		case BO_CLEAR: jwt_builder_error_clear(b); break;
 		case BO_CLOCK: clock += 200; break;
 		case BO_CLAIM_SUB:
